@@ -214,6 +214,10 @@ def h_frame(ctx, rule, kind, iz, fecf, ocf, vcf, n, twin=False):
         (u.insert_zone == info["iz"]) if iz else (not u.insert_zone), (u.op_ctrl_field == info["ocf"]) if ocf else (not u.op_ctrl_field),
         (u.fecf == info["fecf"]) if fecf else (not u.fecf), u.len() == len(raw)))
     ctx.holds("repack identical", u.pack(truncated=(kind == "truncated"), frame_type=ftype) == raw)
+    decoded_object_owns_its_data(ctx, lambda d: TransferFrame.unpack(d, ftype, props), ref, lambda x: sym_and(
+        x.tfdf.tfdz == info["tfdz"], (x.insert_zone == info["iz"]) if iz else True, (x.fecf == info["fecf"]) if fecf else True,
+        (x.op_ctrl_field == info["ocf"]) if ocf else True, x.pack(truncated=(kind == "truncated"), frame_type=ftype) == ctx.bytes_of(ref)),
+        flavours=("bytearray",))
     # the data field on its own, with the frame type given and with frame_type=None (documented: then the construction rule
     # alone decides whether the pointer field is there)
     tl = (3 if info["fixed"] else 1) + n
